@@ -662,7 +662,7 @@ pub fn c14(a: &Args) {
     let mut out = Out::create(a.req("out"));
     let mut rng = Rng::new(a.num("seed", 1));
     let corpus = read_corpus(a.req("corpus"));
-    let special = ["teh teh", "teh teh teh cat.", "He said \"an test\" today.", "\"teh\" is wrong and \"teh\" again.", "(teh) and [teh]",
+    let special = ["A *teh* and _errorz_ here.", "See `wich` one and **an apple**.", "_teh_ *teh* teh", "teh teh", "teh teh teh cat.", "He said \"an test\" today.", "\"teh\" is wrong and \"teh\" again.", "(teh) and [teh]",
         "an apple and an test and an orange.", "teh cat. teh dog.", "The the cat saw teh dog, teh cat and teh bird.",
         "\"teh", "a teh", "I has an test. You has an test.", "this sentence. this sentence.", "Very long mispelled wordd here and mispelled wordd there."];
     let far_pre = ["Some intro words here.\n\n", "\"Quoted\" intro words.\n\n", "An earlier paragraph with teh typo.\n\n", "Ünïcödé 😀 first.\n\n"];
@@ -714,6 +714,8 @@ pub fn c14(a: &Args) {
                         if let Some(w) = wasm.as_mut() {
                             let wl = w.lint(cur.clone(), harper_wasm::Language::Plain);
                             if let Some(x) = wl.into_iter().find(|x| x.span().start == vis[k].span.start && x.span().end == vis[k].span.end && x.message() == vis[k].message) {
+                                // the page may have been looked at as Markdown in the meantime
+                                if r.chance(1, 2) { let _ = w.lint(cur.clone(), harper_wasm::Language::Markdown); }
                                 w.ignore_lint(cur.clone(), x);
                                 wasm_done = true;
                             }
